@@ -477,6 +477,34 @@ def report_keys(ctx):
                        f"the numeric report field(s) {sorted({k for k, _ in falsy})} are tested for truthiness (line {falsy[0][1]}): a measured 0 "
                        "(standstill, heading north, the equator / the prime meridian) is treated as a missing value and the message "
                        "carries `unavailable` or the previous value instead of the measurement", fi.loc)
+            # a field that IS in the report is mapped: the store of a value derived from report field(s) K stands under presence
+            # tests of keys of K only (a `no track or no speed -> return` shortcut leaves a present speed at `unavailable`)
+            foreign = []
+            for a_ in ast.walk(fi.node):
+                if not (isinstance(a_, ast.Assign) and isinstance(a_.targets[0], ast.Subscript) and id(a_) in fl.before):
+                    continue
+                vx = sem.cx(fl.expand(a_.value, fl.before[id(a_)]))
+                used = set()
+                for r in reports:
+                    used |= set(re.findall(re.escape(r) + r"\['(\w+)'\]", vx)) | set(re.findall(re.escape(r) + r"\.get\('(\w+)'", vx))
+                if not used:
+                    continue
+                try:
+                    fs_ = sem.facts(fl, a_, expanded=False)
+                except AnalysisError:
+                    continue
+                tested = set()
+                for r in reports:
+                    for f_ in fs_:
+                        tested |= set(re.findall(r"in\('(\w+)'," + re.escape(r) + r"(?:\.keys\(\))?\)", f_)) if not f_.startswith("!") else set()
+                extra = tested - used
+                if extra:
+                    foreign.append((sorted(used), sorted(extra), a_.lineno))
+            if reports:
+                ctx.ob("C11.report-keys", fi.short(), "mapped-whenever-present", not foreign,
+                       "a value taken from the report is stored whenever its own field is present" if not foreign else
+                       f"the value of report field(s) {foreign[0][0]} is stored only when {foreign[0][1]} are present too (line {foreign[0][2]}): a report "
+                       "that carries the field but lacks the other one leaves the data element at `unavailable` although it was measured", fi.loc)
             if reports:
                 keys = sorted({k for k, _ in bad})
                 ctx.ob("C11.report-keys", fi.short(), "presence-tested", not bad,
